@@ -156,3 +156,8 @@ def short(o: t.Any, n: int = 400) -> str:
     except Exception as e:  # repr of odd objects must never kill a run
         s = f"<unrepr-able {type(o).__name__}: {type(e).__name__}>"
     return s if len(s) <= n else s[:n - 3] + '...'
+
+
+def clone(o: t.Any) -> t.Any:
+    """Deep copy of case data (copy.deepcopy cannot copy mappingproxy)."""
+    return dec(enc(o))
